@@ -154,6 +154,17 @@ func (e *Engine) discharge(o *Oblig, dir string, timeoutSec int, thorough bool) 
 		o.Solver, o.Secs, o.Output = solvers[0].name, r.secs, r.output
 		if r.verdict == "unsat" {
 			o.Verdict = "vacuous"
+			if o.Before != nil {
+				// call-site probe: vacuous only if the path was alive before the call's postconditions were assumed
+				b := *o
+				b.Assumes, b.Before = o.Before, nil
+				bf := strings.TrimSuffix(fname, ".smt2") + ".before.smt2"
+				os.WriteFile(bf, []byte(e.smtText(&b)), 0o644)
+				if rb := runSolver(solvers[0], bf, 2, ""); rb.verdict == "unsat" {
+					o.Verdict = "ok"
+					o.Output += "\n(the path was already infeasible before the call)"
+				}
+			}
 		} else {
 			o.Verdict = "ok"
 		}
